@@ -699,3 +699,585 @@ Definition expected_hsps (v : hsps_syntax) : hsps :=
 
 (* width / height reported by SPS.ImageSize: the cropping formula *)
 Definition expected_himage_size (v : hsps_syntax) : N * N := (h_display_width v, h_display_height v).
+
+(* ====================================================================== pic_parameter_set_rbsp (7.3.2.3) *)
+Record hppsrange_syntax := mkHPpsRangeSyn {
+  sx_log2_max_transform_skip_block_size_minus2 : N; sx_cross_component_prediction_enabled_flag : bool;
+  sx_chroma_qp_offset_list_enabled_flag : bool; sx_diff_cu_chroma_qp_offset_depth : N;
+  sx_cb_cr_qp_offset_list : list (Z * Z);       (* chroma_qp_offset_list_len_minus1 + 1 entries *)
+  sx_log2_sao_offset_scale_luma : N; sx_log2_sao_offset_scale_chroma : N }.
+
+Record hppsscc_syntax := mkHPpsSccSyn {
+  sx_pps_curr_pic_ref_enabled_flag : bool; sx_residual_adaptive_colour_transform_enabled_flag : bool;
+  sx_pps_slice_act_qp_offsets_present_flag : bool; sx_pps_act_y_qp_offset_plus5 : Z;
+  sx_pps_act_cb_qp_offset_plus5 : Z; sx_pps_act_cr_qp_offset_plus3 : Z;
+  sx_pps_palette_predictor_initializers_present_flag : bool;
+  sx_monochrome_palette_flag : bool; sx_luma_bit_depth_entry_minus8 : N; sx_chroma_bit_depth_entry_minus8 : N;
+  sx_pps_palette_predictor_initializer : list (list N) }.   (* [comp][i]; [] = pps_num_palette_predictor_initializers 0 *)
+
+Record hpps_syntax := mkHPpsSyn {
+  sx_pps_nuh_layer_id : N; sx_pps_nuh_temporal_id_plus1 : N;
+  sx_pps_pic_parameter_set_id : N; sx_pps_seq_parameter_set_id : N;
+  sx_dependent_slice_segments_enabled_flag : bool; sx_output_flag_present_flag : bool;
+  sx_num_extra_slice_header_bits : N; sx_sign_data_hiding_enabled_flag : bool;
+  sx_cabac_init_present_flag : bool; sx_num_ref_idx_l0_default_active_minus1 : N;
+  sx_num_ref_idx_l1_default_active_minus1 : N; sx_init_qp_minus26 : Z;
+  sx_constrained_intra_pred_flag : bool; sx_transform_skip_enabled_flag : bool;
+  sx_cu_qp_delta_enabled_flag : bool; sx_diff_cu_qp_delta_depth : N;
+  sx_pps_cb_qp_offset : Z; sx_pps_cr_qp_offset : Z; sx_pps_slice_chroma_qp_offsets_present_flag : bool;
+  sx_weighted_pred_flag : bool; sx_weighted_bipred_flag : bool; sx_transquant_bypass_enabled_flag : bool;
+  sx_tiles_enabled_flag : bool; sx_entropy_coding_sync_enabled_flag : bool;
+  sx_num_tile_columns_minus1 : N; sx_num_tile_rows_minus1 : N; sx_uniform_spacing_flag : bool;
+  sx_column_width_minus1 : list N; sx_row_height_minus1 : list N;
+  sx_loop_filter_across_tiles_enabled_flag : bool; sx_pps_loop_filter_across_slices_enabled_flag : bool;
+  sx_deblocking_filter_control_present_flag : bool; sx_deblocking_filter_override_enabled_flag : bool;
+  sx_pps_deblocking_filter_disabled_flag : bool; sx_pps_beta_offset_div2 : Z; sx_pps_tc_offset_div2 : Z;
+  sx_pps_scaling_list_data_present_flag : bool; sx_pps_scaling_list : hsl_syntax;
+  sx_lists_modification_present_flag : bool; sx_log2_parallel_merge_level_minus2 : N;
+  sx_slice_segment_header_extension_present_flag : bool;
+  sx_pps_extension_present_flag : bool; sx_pps_range_extension_flag : bool;
+  sx_pps_multilayer_extension_flag : bool; sx_pps_3d_extension_flag : bool;
+  sx_pps_scc_extension_flag : bool; sx_pps_extension_4bits : N;
+  sx_pps_range_extension : hppsrange_syntax; sx_pps_scc_extension : hppsscc_syntax;
+  sx_pps_extension_data_flags : list bool }.
+
+Definition ser_hppsrange (tskip : bool) (x : hppsrange_syntax) : list bool :=
+  opt_bits tskip (ue_bits (sx_log2_max_transform_skip_block_size_minus2 x))
+  ++ fl (sx_cross_component_prediction_enabled_flag x) ++ fl (sx_chroma_qp_offset_list_enabled_flag x)
+  ++ opt_bits (sx_chroma_qp_offset_list_enabled_flag x)
+       (ue_bits (sx_diff_cu_chroma_qp_offset_depth x) ++ ue_bits (lenN (sx_cb_cr_qp_offset_list x) - 1)
+        ++ flat_map (fun e => se_bits (fst e) ++ se_bits (snd e)) (sx_cb_cr_qp_offset_list x))
+  ++ ue_bits (sx_log2_sao_offset_scale_luma x) ++ ue_bits (sx_log2_sao_offset_scale_chroma x).
+
+Definition ser_hppsscc (x : hppsscc_syntax) : list bool :=
+  let ini := sx_pps_palette_predictor_initializer x in
+  fl (sx_pps_curr_pic_ref_enabled_flag x) ++ fl (sx_residual_adaptive_colour_transform_enabled_flag x)
+  ++ opt_bits (sx_residual_adaptive_colour_transform_enabled_flag x)
+       (fl (sx_pps_slice_act_qp_offsets_present_flag x) ++ se_bits (sx_pps_act_y_qp_offset_plus5 x)
+        ++ se_bits (sx_pps_act_cb_qp_offset_plus5 x) ++ se_bits (sx_pps_act_cr_qp_offset_plus3 x))
+  ++ fl (sx_pps_palette_predictor_initializers_present_flag x)
+  ++ opt_bits (sx_pps_palette_predictor_initializers_present_flag x)
+       (ue_bits (lenN (hd [] ini))                         (* pps_num_palette_predictor_initializers *)
+        ++ opt_bits (0 <? lenN (hd [] ini))
+             (fl (sx_monochrome_palette_flag x) ++ ue_bits (sx_luma_bit_depth_entry_minus8 x)
+              ++ opt_bits (negb (sx_monochrome_palette_flag x)) (ue_bits (sx_chroma_bit_depth_entry_minus8 x))
+              ++ flat_map (u (sx_luma_bit_depth_entry_minus8 x + 8)) (hd [] ini)
+              ++ flat_map (fun c => flat_map (u (sx_chroma_bit_depth_entry_minus8 x + 8)) c) (tl ini))).
+
+Definition hpps_ext_on (v : hpps_syntax) (f : hpps_syntax -> bool) : bool :=
+  sx_pps_extension_present_flag v && f v.
+Definition hpps_ext4 (v : hpps_syntax) : N :=
+  if sx_pps_extension_present_flag v then sx_pps_extension_4bits v else 0.
+
+Definition ser_hpps (v : hpps_syntax) : list bool :=
+  ue_bits (sx_pps_pic_parameter_set_id v) ++ ue_bits (sx_pps_seq_parameter_set_id v)
+  ++ fl (sx_dependent_slice_segments_enabled_flag v) ++ fl (sx_output_flag_present_flag v)
+  ++ u 3 (sx_num_extra_slice_header_bits v) ++ fl (sx_sign_data_hiding_enabled_flag v)
+  ++ fl (sx_cabac_init_present_flag v)
+  ++ ue_bits (sx_num_ref_idx_l0_default_active_minus1 v) ++ ue_bits (sx_num_ref_idx_l1_default_active_minus1 v)
+  ++ se_bits (sx_init_qp_minus26 v) ++ fl (sx_constrained_intra_pred_flag v)
+  ++ fl (sx_transform_skip_enabled_flag v) ++ fl (sx_cu_qp_delta_enabled_flag v)
+  ++ opt_bits (sx_cu_qp_delta_enabled_flag v) (ue_bits (sx_diff_cu_qp_delta_depth v))
+  ++ se_bits (sx_pps_cb_qp_offset v) ++ se_bits (sx_pps_cr_qp_offset v)
+  ++ fl (sx_pps_slice_chroma_qp_offsets_present_flag v) ++ fl (sx_weighted_pred_flag v)
+  ++ fl (sx_weighted_bipred_flag v) ++ fl (sx_transquant_bypass_enabled_flag v)
+  ++ fl (sx_tiles_enabled_flag v) ++ fl (sx_entropy_coding_sync_enabled_flag v)
+  ++ opt_bits (sx_tiles_enabled_flag v)
+       (ue_bits (sx_num_tile_columns_minus1 v) ++ ue_bits (sx_num_tile_rows_minus1 v)
+        ++ fl (sx_uniform_spacing_flag v)
+        ++ opt_bits (negb (sx_uniform_spacing_flag v))
+             (flat_map ue_bits (sx_column_width_minus1 v) ++ flat_map ue_bits (sx_row_height_minus1 v))
+        ++ fl (sx_loop_filter_across_tiles_enabled_flag v))
+  ++ fl (sx_pps_loop_filter_across_slices_enabled_flag v)
+  ++ fl (sx_deblocking_filter_control_present_flag v)
+  ++ opt_bits (sx_deblocking_filter_control_present_flag v)
+       (fl (sx_deblocking_filter_override_enabled_flag v) ++ fl (sx_pps_deblocking_filter_disabled_flag v)
+        ++ opt_bits (negb (sx_pps_deblocking_filter_disabled_flag v))
+             (se_bits (sx_pps_beta_offset_div2 v) ++ se_bits (sx_pps_tc_offset_div2 v)))
+  ++ fl (sx_pps_scaling_list_data_present_flag v)
+  ++ opt_bits (sx_pps_scaling_list_data_present_flag v) (ser_hsl (sx_pps_scaling_list v))
+  ++ fl (sx_lists_modification_present_flag v) ++ ue_bits (sx_log2_parallel_merge_level_minus2 v)
+  ++ fl (sx_slice_segment_header_extension_present_flag v)
+  ++ fl (sx_pps_extension_present_flag v)
+  ++ opt_bits (sx_pps_extension_present_flag v)
+       (fl (sx_pps_range_extension_flag v) ++ fl (sx_pps_multilayer_extension_flag v)
+        ++ fl (sx_pps_3d_extension_flag v) ++ fl (sx_pps_scc_extension_flag v)
+        ++ u 4 (sx_pps_extension_4bits v))
+  ++ opt_bits (hpps_ext_on v sx_pps_range_extension_flag)
+       (ser_hppsrange (sx_transform_skip_enabled_flag v) (sx_pps_range_extension v))
+  ++ opt_bits (hpps_ext_on v sx_pps_scc_extension_flag) (ser_hppsscc (sx_pps_scc_extension v))
+  ++ opt_bits (0 <? hpps_ext4 v) (sx_pps_extension_data_flags v).
+
+Definition hraw_pps (v : hpps_syntax) : list N :=
+  hraw_nalu 34 (sx_pps_nuh_layer_id v) (sx_pps_nuh_temporal_id_plus1 v) (ser_hpps v).
+Definition hnalu_pps (v : hpps_syntax) : list N :=
+  hnalu_of 34 (sx_pps_nuh_layer_id v) (sx_pps_nuh_temporal_id_plus1 v) (ser_hpps v).
+
+Definition i8_ok (k : Z) : bool := (-128 <=? k)%Z && (k <=? 127)%Z.
+
+Definition hppsscc_valid (x : hppsscc_syntax) : bool :=
+  let ini := sx_pps_palette_predictor_initializer x in
+  se_ok (sx_pps_act_y_qp_offset_plus5 x) && se_ok (sx_pps_act_cb_qp_offset_plus5 x)
+  && se_ok (sx_pps_act_cr_qp_offset_plus3 x)
+  && (sx_luma_bit_depth_entry_minus8 x <=? 8) && (sx_chroma_bit_depth_entry_minus8 x <=? 8)
+  && (if sx_pps_palette_predictor_initializers_present_flag x && (0 <? lenN (hd [] ini))
+      then (lenN ini =? (if sx_monochrome_palette_flag x then 1 else 3))
+           && (lenN (hd [] ini) <=? 1024)
+           && forallb (fun c => lenN c =? lenN (hd [] ini)) ini
+           && forallb (fun w => w <? 2 ^ (sx_luma_bit_depth_entry_minus8 x + 8)) (hd [] ini)
+           && forallb (forallb (fun w => w <? 2 ^ (sx_chroma_bit_depth_entry_minus8 x + 8))) (tl ini)
+      else true).
+
+(* the multilayer and 3D extensions are outside the modelled syntax *)
+Definition hpps_valid (v : hpps_syntax) : bool :=
+  (sx_pps_nuh_layer_id v <? 64) && (1 <=? sx_pps_nuh_temporal_id_plus1 v) && (sx_pps_nuh_temporal_id_plus1 v <? 8)
+  && (sx_pps_pic_parameter_set_id v <=? 63) && (sx_pps_seq_parameter_set_id v <=? 15)
+  && (sx_num_extra_slice_header_bits v <? 8)
+  && (sx_num_ref_idx_l0_default_active_minus1 v <=? 14) && (sx_num_ref_idx_l1_default_active_minus1 v <=? 14)
+  && i8_ok (sx_init_qp_minus26 v) && ue_ok (sx_diff_cu_qp_delta_depth v)
+  && i8_ok (sx_pps_cb_qp_offset v) && i8_ok (sx_pps_cr_qp_offset v)
+  && (sx_num_tile_columns_minus1 v <=? 1024) && (sx_num_tile_rows_minus1 v <=? 1024)
+  && (if sx_uniform_spacing_flag v then true
+      else (lenN (sx_column_width_minus1 v) =? sx_num_tile_columns_minus1 v)
+           && (lenN (sx_row_height_minus1 v) =? sx_num_tile_rows_minus1 v))
+  && forallb ue_ok (sx_column_width_minus1 v) && forallb ue_ok (sx_row_height_minus1 v)
+  && i8_ok (sx_pps_beta_offset_div2 v) && i8_ok (sx_pps_tc_offset_div2 v)
+  && (if sx_pps_scaling_list_data_present_flag v then hsl_valid (sx_pps_scaling_list v) else true)
+  && ue_ok (sx_log2_parallel_merge_level_minus2 v)
+  && (sx_pps_extension_4bits v <? 16)
+  && negb (hpps_ext_on v sx_pps_multilayer_extension_flag) && negb (hpps_ext_on v sx_pps_3d_extension_flag)
+  && (let r := sx_pps_range_extension v in
+      ue_ok (sx_log2_max_transform_skip_block_size_minus2 r) && ue_ok (sx_diff_cu_chroma_qp_offset_depth r)
+      && (1 <=? lenN (sx_cb_cr_qp_offset_list r)) && (lenN (sx_cb_cr_qp_offset_list r) <=? 6)
+      && forallb (fun e => i8_ok (fst e) && i8_ok (snd e)) (sx_cb_cr_qp_offset_list r)
+      && ue_ok (sx_log2_sao_offset_scale_luma r) && ue_ok (sx_log2_sao_offset_scale_chroma r))
+  && hppsscc_valid (sx_pps_scc_extension v)
+  && (lenN (sx_pps_extension_data_flags v) <=? 64).
+
+Definition expected_hppsrange (tskip : bool) (x : hppsrange_syntax) : hppsrange :=
+  let ce := sx_chroma_qp_offset_list_enabled_flag x in
+  mkHPpsRange (if tskip then sx_log2_max_transform_skip_block_size_minus2 x else 0)
+              (sx_cross_component_prediction_enabled_flag x) ce
+              (if ce then sx_diff_cu_chroma_qp_offset_depth x else 0)
+              (if ce then lenN (sx_cb_cr_qp_offset_list x) - 1 else 0)
+              (if ce then map fst (sx_cb_cr_qp_offset_list x) else [])
+              (if ce then map snd (sx_cb_cr_qp_offset_list x) else [])
+              (sx_log2_sao_offset_scale_luma x) (sx_log2_sao_offset_scale_chroma x).
+
+Definition expected_hppsscc (x : hppsscc_syntax) : hppsscc :=
+  let ra := sx_residual_adaptive_colour_transform_enabled_flag x in
+  let pi := sx_pps_palette_predictor_initializers_present_flag x in
+  let ini := sx_pps_palette_predictor_initializer x in
+  let nz := pi && (0 <? lenN (hd [] ini)) in
+  let zz (c : bool) (k : Z) := if c then k else 0%Z in
+  mkHPpsScc (sx_pps_curr_pic_ref_enabled_flag x) ra (ra && sx_pps_slice_act_qp_offsets_present_flag x)
+            (zz ra (sx_pps_act_y_qp_offset_plus5 x)) (zz ra (sx_pps_act_cb_qp_offset_plus5 x))
+            (zz ra (sx_pps_act_cr_qp_offset_plus3 x))
+            pi (if pi then lenN (hd [] ini) else 0) (nz && sx_monochrome_palette_flag x)
+            (if nz then sx_luma_bit_depth_entry_minus8 x else 0)
+            (if nz && negb (sx_monochrome_palette_flag x) then sx_chroma_bit_depth_entry_minus8 x else 0)
+            (if nz then ini else []).
+
+Definition expected_hpps (v : hpps_syntax) : hpps :=
+  let t := sx_tiles_enabled_flag v in
+  let nu := t && negb (sx_uniform_spacing_flag v) in
+  let dc := sx_deblocking_filter_control_present_flag v in
+  let dd := dc && sx_pps_deblocking_filter_disabled_flag v in
+  let bt := dc && negb (sx_pps_deblocking_filter_disabled_flag v) in
+  let n (c : bool) (x : N) := if c then x else 0 in
+  let zz (c : bool) (k : Z) := if c then k else 0%Z in
+  mkHPps (sx_pps_pic_parameter_set_id v) (sx_pps_seq_parameter_set_id v)
+         (sx_dependent_slice_segments_enabled_flag v) (sx_output_flag_present_flag v)
+         (sx_num_extra_slice_header_bits v) (sx_sign_data_hiding_enabled_flag v)
+         (sx_cabac_init_present_flag v) (sx_num_ref_idx_l0_default_active_minus1 v)
+         (sx_num_ref_idx_l1_default_active_minus1 v) (sx_init_qp_minus26 v)
+         (sx_constrained_intra_pred_flag v) (sx_transform_skip_enabled_flag v)
+         (sx_cu_qp_delta_enabled_flag v) (n (sx_cu_qp_delta_enabled_flag v) (sx_diff_cu_qp_delta_depth v))
+         (sx_pps_cb_qp_offset v) (sx_pps_cr_qp_offset v) (sx_pps_slice_chroma_qp_offsets_present_flag v)
+         (sx_weighted_pred_flag v) (sx_weighted_bipred_flag v) (sx_transquant_bypass_enabled_flag v)
+         t (sx_entropy_coding_sync_enabled_flag v)
+         (n t (sx_num_tile_columns_minus1 v)) (n t (sx_num_tile_rows_minus1 v))
+         (t && sx_uniform_spacing_flag v)
+         (if nu then sx_column_width_minus1 v else []) (if nu then sx_row_height_minus1 v else [])
+         (t && sx_loop_filter_across_tiles_enabled_flag v)
+         (sx_pps_loop_filter_across_slices_enabled_flag v) dc
+         (dc && sx_deblocking_filter_override_enabled_flag v) dd
+         (zz bt (sx_pps_beta_offset_div2 v)) (zz bt (sx_pps_tc_offset_div2 v))
+         (sx_pps_scaling_list_data_present_flag v) (sx_lists_modification_present_flag v)
+         (sx_log2_parallel_merge_level_minus2 v) (sx_slice_segment_header_extension_present_flag v)
+         (sx_pps_extension_present_flag v)
+         (hpps_ext_on v sx_pps_range_extension_flag)
+         (if hpps_ext_on v sx_pps_range_extension_flag
+          then Some (expected_hppsrange (sx_transform_skip_enabled_flag v) (sx_pps_range_extension v)) else None)
+         false false
+         (hpps_ext_on v sx_pps_scc_extension_flag)
+         (if hpps_ext_on v sx_pps_scc_extension_flag then Some (expected_hppsscc (sx_pps_scc_extension v)) else None)
+         (hpps_ext4 v)
+         (if 0 <? hpps_ext4 v then sx_pps_extension_data_flags v else []).
+
+(* ====================================================================== slice_segment_header (7.3.6.1) *)
+Record hslice_syntax := mkHSliceSyn {
+  sx_sl_nal_unit_type : N; sx_sl_nuh_layer_id : N; sx_sl_nuh_temporal_id_plus1 : N;
+  sx_first_slice_segment_in_pic_flag : bool; sx_no_output_of_prior_pics_flag : bool;
+  sx_slice_pic_parameter_set_id : N;
+  sx_dependent_slice_segment_flag : bool; sx_slice_segment_address : N;
+  sx_slice_reserved_flags : list bool;
+  sx_slice_type : N; sx_pic_output_flag : bool; sx_colour_plane_id : N;
+  sx_slice_pic_order_cnt_lsb : N; sx_short_term_ref_pic_set_sps_flag : bool;
+  sx_slice_st_rps : hrps_syntax; sx_short_term_ref_pic_set_idx : N;
+  sx_lt_sps_entries : list (N * bool * N);          (* lt_idx_sps, delta_poc_msb_present_flag, delta_poc_msb_cycle_lt *)
+  sx_lt_pics_entries : list (N * bool * bool * N);  (* poc_lsb_lt, used_by_curr_pic_lt_flag, delta_poc_msb_present_flag, delta_poc_msb_cycle_lt *)
+  sx_slice_temporal_mvp_enabled_flag : bool; sx_slice_sao_luma_flag : bool; sx_slice_sao_chroma_flag : bool;
+  sx_num_ref_idx_active_override_flag : bool; sx_num_ref_idx_l0_active_minus1 : N;
+  sx_num_ref_idx_l1_active_minus1 : N;
+  sx_ref_pic_list_modification_flag_l0 : bool; sx_list_entry_l0 : list N;
+  sx_ref_pic_list_modification_flag_l1 : bool; sx_list_entry_l1 : list N;
+  sx_mvd_l1_zero_flag : bool; sx_cabac_init_flag : bool; sx_collocated_from_l0_flag : bool;
+  sx_collocated_ref_idx : N;
+  sx_luma_log2_weight_denom : N; sx_delta_chroma_log2_weight_denom : Z;
+  sx_pwt_l0 : list hpwt; sx_pwt_l1 : list hpwt;     (* per entry: the two flags and the six se(v) values *)
+  sx_five_minus_max_num_merge_cand : N; sx_use_integer_mv_flag : bool;
+  sx_slice_qp_delta : Z; sx_slice_cb_qp_offset : Z; sx_slice_cr_qp_offset : Z;
+  sx_slice_act_y_qp_offset : Z; sx_slice_act_cb_qp_offset : Z; sx_slice_act_cr_qp_offset : Z;
+  sx_cu_chroma_qp_offset_enabled_flag : bool; sx_deblocking_filter_override_flag : bool;
+  sx_slice_deblocking_filter_disabled_flag : bool; sx_slice_beta_offset_div2 : Z; sx_slice_tc_offset_div2 : Z;
+  sx_slice_loop_filter_across_slices_enabled_flag : bool;
+  sx_offset_len_minus1 : N; sx_entry_point_offset_minus1 : list N;   (* num_entry_point_offsets = length *)
+  sx_slice_segment_header_extension_data : list N;                   (* slice_segment_header_extension_length = length *)
+  sx_slice_segment_data : list N }.                                  (* bytes that follow byte_alignment() *)
+
+Section HSliceSyntax.
+  Variable sp : hsps_syntax.      (* the active SPS: the one the PPS refers to *)
+  Variable pp : hpps_syntax.      (* the PPS selected by slice_pic_parameter_set_id *)
+  Variable v : hslice_syntax.
+
+  Definition hs_nt : N := sx_sl_nal_unit_type v.
+  Definition hs_irap : bool := (16 <=? hs_nt) && (hs_nt <=? 23).
+  Definition hs_idr : bool := (hs_nt =? 19) || (hs_nt =? 20).
+  Definition hs_first : bool := sx_first_slice_segment_in_pic_flag v.
+  Definition hs_dep : bool :=
+    negb hs_first && sx_dependent_slice_segments_enabled_flag pp && sx_dependent_slice_segment_flag v.
+  Definition hs_main : bool := negb hs_dep.
+  Definition hs_nidr : bool := hs_main && negb hs_idr.
+
+  (* (7-10) .. (7-19) *)
+  Definition hs_ctb_log2 : N :=
+    sx_log2_min_luma_coding_block_size_minus3 sp + 3 + sx_log2_diff_max_min_luma_coding_block_size sp.
+  Definition hs_ctb_size : N := 2 ^ hs_ctb_log2.
+  Definition hs_pic_width_in_ctbs : N := (sx_pic_width_in_luma_samples sp + hs_ctb_size - 1) / hs_ctb_size.
+  Definition hs_pic_height_in_ctbs : N := (sx_pic_height_in_luma_samples sp + hs_ctb_size - 1) / hs_ctb_size.
+  Definition hs_pic_size_in_ctbs : N := hs_pic_width_in_ctbs * hs_pic_height_in_ctbs.
+  Definition hs_address_bits : N := N.log2_up hs_pic_size_in_ctbs.
+
+  Definition hs_sep_plane : bool := (sx_chroma_format_idc sp =? 3) && sx_separate_colour_plane_flag sp.
+  Definition hs_chroma_array_type : N := if hs_sep_plane then 0 else sx_chroma_format_idc sp.
+  Definition hs_cat_nz : bool := negb (hs_chroma_array_type =? 0).
+  Definition hs_poc_bits : N := sx_log2_max_pic_order_cnt_lsb_minus4 sp + 4.
+  Definition hs_num_st : N := lenN (sx_st_ref_pic_sets sp).
+  Definition hs_sps_derived : list rps_derived := derive_all (sx_st_ref_pic_sets sp).
+  Definition hs_st_coded : bool := hs_nidr && negb (sx_short_term_ref_pic_set_sps_flag v).
+  Definition hs_st_idx_coded : bool := hs_nidr && sx_short_term_ref_pic_set_sps_flag v && (1 <? hs_num_st).
+  Definition hs_st_idx : N := if hs_st_idx_coded then sx_short_term_ref_pic_set_idx v else 0.
+
+  (* the short-term RPS in force (CurrRpsIdx), derived as in 7.4.8 *)
+  Definition hs_curr_rps : rps_derived :=
+    if hs_nidr then
+      if sx_short_term_ref_pic_set_sps_flag v
+      then nth (N.to_nat hs_st_idx) hs_sps_derived (mkRpsD [] [])
+      else derive_one hs_sps_derived hs_num_st (sx_slice_st_rps v)
+    else mkRpsD [] [].
+
+  Definition hs_lt_on : bool := hs_nidr && sx_long_term_ref_pics_present_flag sp.
+  Definition hs_num_lt_sps_in_sps : N :=
+    if sx_long_term_ref_pics_present_flag sp then lenN (sx_lt_ref_pics_sps sp) else 0.
+  Definition hs_lt_sps_entries : list (N * bool * N) :=
+    if hs_lt_on && (0 <? hs_num_lt_sps_in_sps) then sx_lt_sps_entries v else [].
+  Definition hs_lt_pics_entries : list (N * bool * bool * N) := if hs_lt_on then sx_lt_pics_entries v else [].
+  Definition hs_lt_idx_bits : N := N.log2_up hs_num_lt_sps_in_sps.
+  Definition hs_sps_lt (ix : N) : N * bool := nth (N.to_nat ix) (sx_lt_ref_pics_sps sp) (0, false).
+
+  (* NumPicTotalCurr (7-55) *)
+  Definition hs_curr_pic_ref : bool :=
+    hpps_ext_on pp sx_pps_scc_extension_flag && sx_pps_curr_pic_ref_enabled_flag (sx_pps_scc_extension pp).
+  Definition hs_num_pic_total_curr : N :=
+    d_num_used hs_curr_rps
+    + countb (map (fun e => snd (hs_sps_lt (fst (fst e)))) hs_lt_sps_entries)
+    + countb (map (fun e => snd (fst (fst e))) hs_lt_pics_entries)
+    + (if hs_curr_pic_ref then 1 else 0).
+
+  Definition hs_is_p : bool := hs_main && (sx_slice_type v =? 1).
+  Definition hs_is_b : bool := hs_main && (sx_slice_type v =? 0).
+  Definition hs_inter : bool := hs_is_p || hs_is_b.
+  Definition hs_override : bool := hs_inter && sx_num_ref_idx_active_override_flag v.
+  Definition hs_l0 : N :=
+    if hs_override then sx_num_ref_idx_l0_active_minus1 v else sx_num_ref_idx_l0_default_active_minus1 pp.
+  Definition hs_l1 : N :=
+    if hs_override && hs_is_b then sx_num_ref_idx_l1_active_minus1 v
+    else sx_num_ref_idx_l1_default_active_minus1 pp.
+  Definition hs_rplm : bool :=
+    hs_inter && sx_lists_modification_present_flag pp && (1 <? hs_num_pic_total_curr).
+  Definition hs_list_entry_bits : N := N.log2_up hs_num_pic_total_curr.
+  Definition hs_tmvp : bool :=
+    hs_nidr && sx_sps_temporal_mvp_enabled_flag sp && sx_slice_temporal_mvp_enabled_flag v.
+  Definition hs_col_l0 : bool := if hs_is_b then sx_collocated_from_l0_flag v else true.
+  Definition hs_col_idx : bool :=
+    hs_inter && hs_tmvp && ((hs_col_l0 && (0 <? hs_l0)) || (negb hs_col_l0 && (0 <? hs_l1))).
+  Definition hs_pwt : bool :=
+    (sx_weighted_pred_flag pp && hs_is_p) || (sx_weighted_bipred_flag pp && hs_is_b).
+  Definition hs_mvres2 : bool :=
+    hsps_ext_on sp sx_sps_scc_extension_flag
+    && (sx_motion_vector_resolution_control_idc (sx_sps_scc_extension sp) =? 2).
+  Definition hs_act_qp : bool :=
+    hpps_ext_on pp sx_pps_scc_extension_flag
+    && sx_residual_adaptive_colour_transform_enabled_flag (sx_pps_scc_extension pp)
+    && sx_pps_slice_act_qp_offsets_present_flag (sx_pps_scc_extension pp).
+  Definition hs_cqp_list : bool :=
+    hpps_ext_on pp sx_pps_range_extension_flag
+    && sx_chroma_qp_offset_list_enabled_flag (sx_pps_range_extension pp).
+  Definition hs_dbf_override : bool :=
+    hs_main && sx_deblocking_filter_control_present_flag pp
+    && sx_deblocking_filter_override_enabled_flag pp && sx_deblocking_filter_override_flag v.
+  (* slice_deblocking_filter_disabled_flag, inferred from the PPS when not coded (7.4.7.1) *)
+  Definition hs_dbf_disabled : bool :=
+    if hs_dbf_override then sx_slice_deblocking_filter_disabled_flag v
+    else sx_deblocking_filter_control_present_flag pp && sx_pps_deblocking_filter_disabled_flag pp.
+  Definition hs_sao_luma : bool :=
+    hs_main && sx_sample_adaptive_offset_enabled_flag sp && sx_slice_sao_luma_flag v.
+  Definition hs_sao_chroma : bool :=
+    hs_main && sx_sample_adaptive_offset_enabled_flag sp && hs_cat_nz && sx_slice_sao_chroma_flag v.
+  Definition hs_lf_across : bool :=
+    hs_main && sx_pps_loop_filter_across_slices_enabled_flag pp
+    && (hs_sao_luma || hs_sao_chroma || negb hs_dbf_disabled).
+  Definition hs_entry : bool := sx_tiles_enabled_flag pp || sx_entropy_coding_sync_enabled_flag pp.
+
+  Definition ser_hpwt_list (l : list hpwt) : list bool :=
+    flat_map (fun e => fl (pw_luma_flag e)) l
+    ++ opt_bits hs_cat_nz (flat_map (fun e => fl (pw_chroma_flag e)) l)
+    ++ flat_map (fun e =>
+                   opt_bits (pw_luma_flag e) (se_bits (pw_dlw e) ++ se_bits (pw_lo e))
+                   ++ opt_bits (hs_cat_nz && pw_chroma_flag e)
+                        (se_bits (pw_dcw0 e) ++ se_bits (pw_dco0 e) ++ se_bits (pw_dcw1 e) ++ se_bits (pw_dco1 e))) l.
+
+  Definition ser_hslice_lt : list bool :=
+    opt_bits (0 <? hs_num_lt_sps_in_sps) (ue_bits (lenN hs_lt_sps_entries))
+    ++ ue_bits (lenN hs_lt_pics_entries)
+    ++ flat_map (fun e => let '(ix, msb, cyc) := e in
+                          opt_bits (1 <? hs_num_lt_sps_in_sps) (u hs_lt_idx_bits ix)
+                          ++ fl msb ++ opt_bits msb (ue_bits cyc)) hs_lt_sps_entries
+    ++ flat_map (fun e => let '(poc, used, msb, cyc) := e in
+                          u hs_poc_bits poc ++ fl used ++ fl msb ++ opt_bits msb (ue_bits cyc)) hs_lt_pics_entries.
+
+  Definition ser_hslice_inter : list bool :=
+    fl (sx_num_ref_idx_active_override_flag v)
+    ++ opt_bits (sx_num_ref_idx_active_override_flag v)
+         (ue_bits (sx_num_ref_idx_l0_active_minus1 v)
+          ++ opt_bits hs_is_b (ue_bits (sx_num_ref_idx_l1_active_minus1 v)))
+    ++ opt_bits hs_rplm
+         (fl (sx_ref_pic_list_modification_flag_l0 v)
+          ++ opt_bits (sx_ref_pic_list_modification_flag_l0 v)
+               (flat_map (u hs_list_entry_bits) (sx_list_entry_l0 v))
+          ++ opt_bits hs_is_b
+               (fl (sx_ref_pic_list_modification_flag_l1 v)
+                ++ opt_bits (sx_ref_pic_list_modification_flag_l1 v)
+                     (flat_map (u hs_list_entry_bits) (sx_list_entry_l1 v))))
+    ++ opt_bits hs_is_b (fl (sx_mvd_l1_zero_flag v))
+    ++ opt_bits (sx_cabac_init_present_flag pp) (fl (sx_cabac_init_flag v))
+    ++ opt_bits hs_tmvp
+         (opt_bits hs_is_b (fl (sx_collocated_from_l0_flag v))
+          ++ opt_bits hs_col_idx (ue_bits (sx_collocated_ref_idx v)))
+    ++ opt_bits hs_pwt
+         (ue_bits (sx_luma_log2_weight_denom v)
+          ++ opt_bits hs_cat_nz (se_bits (sx_delta_chroma_log2_weight_denom v))
+          ++ ser_hpwt_list (sx_pwt_l0 v) ++ opt_bits hs_is_b (ser_hpwt_list (sx_pwt_l1 v)))
+    ++ ue_bits (sx_five_minus_max_num_merge_cand v)
+    ++ opt_bits hs_mvres2 (fl (sx_use_integer_mv_flag v)).
+
+  Definition ser_hslice_main : list bool :=
+    sx_slice_reserved_flags v
+    ++ ue_bits (sx_slice_type v)
+    ++ opt_bits (sx_output_flag_present_flag pp) (fl (sx_pic_output_flag v))
+    ++ opt_bits hs_sep_plane (u 2 (sx_colour_plane_id v))
+    ++ opt_bits (negb hs_idr)
+         (u hs_poc_bits (sx_slice_pic_order_cnt_lsb v)
+          ++ fl (sx_short_term_ref_pic_set_sps_flag v)
+          ++ (if sx_short_term_ref_pic_set_sps_flag v
+              then opt_bits (1 <? hs_num_st) (u (N.log2_up hs_num_st) (sx_short_term_ref_pic_set_idx v))
+              else ser_hrps hs_num_st hs_num_st (sx_slice_st_rps v))
+          ++ opt_bits (sx_long_term_ref_pics_present_flag sp) ser_hslice_lt
+          ++ opt_bits (sx_sps_temporal_mvp_enabled_flag sp) (fl (sx_slice_temporal_mvp_enabled_flag v)))
+    ++ opt_bits (sx_sample_adaptive_offset_enabled_flag sp)
+         (fl (sx_slice_sao_luma_flag v) ++ opt_bits hs_cat_nz (fl (sx_slice_sao_chroma_flag v)))
+    ++ opt_bits hs_inter ser_hslice_inter
+    ++ se_bits (sx_slice_qp_delta v)
+    ++ opt_bits (sx_pps_slice_chroma_qp_offsets_present_flag pp)
+         (se_bits (sx_slice_cb_qp_offset v) ++ se_bits (sx_slice_cr_qp_offset v))
+    ++ opt_bits hs_act_qp
+         (se_bits (sx_slice_act_y_qp_offset v) ++ se_bits (sx_slice_act_cb_qp_offset v)
+          ++ se_bits (sx_slice_act_cr_qp_offset v))
+    ++ opt_bits hs_cqp_list (fl (sx_cu_chroma_qp_offset_enabled_flag v))
+    ++ opt_bits (sx_deblocking_filter_control_present_flag pp && sx_deblocking_filter_override_enabled_flag pp)
+         (fl (sx_deblocking_filter_override_flag v))
+    ++ opt_bits hs_dbf_override
+         (fl (sx_slice_deblocking_filter_disabled_flag v)
+          ++ opt_bits (negb (sx_slice_deblocking_filter_disabled_flag v))
+               (se_bits (sx_slice_beta_offset_div2 v) ++ se_bits (sx_slice_tc_offset_div2 v)))
+    ++ opt_bits (sx_pps_loop_filter_across_slices_enabled_flag pp
+                 && (hs_sao_luma || hs_sao_chroma || negb hs_dbf_disabled))
+         (fl (sx_slice_loop_filter_across_slices_enabled_flag v)).
+
+  (* slice_segment_header() without byte_alignment() *)
+  Definition ser_hslice_header : list bool :=
+    fl hs_first
+    ++ opt_bits hs_irap (fl (sx_no_output_of_prior_pics_flag v))
+    ++ ue_bits (sx_slice_pic_parameter_set_id v)
+    ++ opt_bits (negb hs_first)
+         (opt_bits (sx_dependent_slice_segments_enabled_flag pp) (fl (sx_dependent_slice_segment_flag v))
+          ++ u hs_address_bits (sx_slice_segment_address v))
+    ++ opt_bits hs_main ser_hslice_main
+    ++ opt_bits hs_entry
+         (ue_bits (lenN (sx_entry_point_offset_minus1 v))
+          ++ opt_bits (0 <? lenN (sx_entry_point_offset_minus1 v))
+               (ue_bits (sx_offset_len_minus1 v)
+                ++ flat_map (u (sx_offset_len_minus1 v + 1)) (sx_entry_point_offset_minus1 v)))
+    ++ opt_bits (sx_slice_segment_header_extension_present_flag pp)
+         (ue_bits (lenN (sx_slice_segment_header_extension_data v))
+          ++ flat_map (u 8) (sx_slice_segment_header_extension_data v)).
+
+  Definition hslice_hdr_bits : list bool :=
+    hnal_header hs_nt (sx_sl_nuh_layer_id v) (sx_sl_nuh_temporal_id_plus1 v) ++ ser_hslice_header.
+  (* header, byte_alignment() (7.3.2.12: a one, then zeros up to the byte boundary), slice segment data *)
+  Definition hraw_slice : list N :=
+    bytes_of_bits (hslice_hdr_bits ++ trailing_bits (lenN hslice_hdr_bits)) ++ sx_slice_segment_data v.
+  Definition hnalu_slice : list N := escape hraw_slice.
+  Definition hslice_size_bits : N := lenN hslice_hdr_bits + lenN (trailing_bits (lenN hslice_hdr_bits)).
+
+  Definition hpwt_ok (e : hpwt) : bool :=
+    i8_ok (pw_dlw e) && se_ok (pw_lo e) && i8_ok (pw_dcw0 e) && i8_ok (pw_dcw1 e)
+    && se_ok (pw_dco0 e) && se_ok (pw_dco1 e).
+
+  Definition hslice_valid : bool :=
+    ((hs_nt <=? 9) || ((16 <=? hs_nt) && (hs_nt <=? 21)))
+    && (sx_sl_nuh_layer_id v <? 64) && (1 <=? sx_sl_nuh_temporal_id_plus1 v) && (sx_sl_nuh_temporal_id_plus1 v <? 8)
+    && (sx_slice_pic_parameter_set_id v =? sx_pps_pic_parameter_set_id pp)
+    && (sx_slice_segment_address v <? 2 ^ hs_address_bits)
+    && (lenN (sx_slice_reserved_flags v) =? sx_num_extra_slice_header_bits pp)
+    && (sx_slice_type v <=? 2) && (sx_colour_plane_id v <? 3)
+    && (sx_slice_pic_order_cnt_lsb v <? 2 ^ hs_poc_bits)
+    && (if hs_st_coded then hrps_valid hs_sps_derived hs_num_st hs_num_st (sx_slice_st_rps v) else true)
+    && (if hs_nidr && sx_short_term_ref_pic_set_sps_flag v
+        then (1 <=? hs_num_st) && (hs_st_idx <? hs_num_st) else true)
+    && (lenN hs_lt_sps_entries <=? 32) && (lenN hs_lt_pics_entries <=? 32)
+    && forallb (fun e => let '(ix, msb, cyc) := e in (ix <? hs_num_lt_sps_in_sps) && ue_ok cyc) hs_lt_sps_entries
+    && forallb (fun e => let '(poc, used, msb, cyc) := e in (poc <? 2 ^ hs_poc_bits) && ue_ok cyc) hs_lt_pics_entries
+    && (sx_num_ref_idx_l0_active_minus1 v <=? 14) && (sx_num_ref_idx_l1_active_minus1 v <=? 14)
+    && (if hs_rplm && sx_ref_pic_list_modification_flag_l0 v
+        then (lenN (sx_list_entry_l0 v) =? hs_l0 + 1)
+             && forallb (fun x => x <? hs_num_pic_total_curr) (sx_list_entry_l0 v) else true)
+    && (if hs_rplm && hs_is_b && sx_ref_pic_list_modification_flag_l1 v
+        then (lenN (sx_list_entry_l1 v) =? hs_l1 + 1)
+             && forallb (fun x => x <? hs_num_pic_total_curr) (sx_list_entry_l1 v) else true)
+    && (hs_num_pic_total_curr <? 256)
+    && (sx_collocated_ref_idx v <=? 14)
+    && (sx_luma_log2_weight_denom v <=? 7) && i8_ok (sx_delta_chroma_log2_weight_denom v)
+    && (if hs_pwt then (lenN (sx_pwt_l0 v) =? hs_l0 + 1) && forallb hpwt_ok (sx_pwt_l0 v)
+                       && (if hs_is_b then (lenN (sx_pwt_l1 v) =? hs_l1 + 1) && forallb hpwt_ok (sx_pwt_l1 v)
+                           else true)
+        else true)
+    && (sx_five_minus_max_num_merge_cand v <=? 4)
+    && se_ok (sx_slice_qp_delta v) && i8_ok (sx_slice_cb_qp_offset v) && i8_ok (sx_slice_cr_qp_offset v)
+    && i8_ok (sx_slice_act_y_qp_offset v) && i8_ok (sx_slice_act_cb_qp_offset v)
+    && i8_ok (sx_slice_act_cr_qp_offset v)
+    && i8_ok (sx_slice_beta_offset_div2 v) && i8_ok (sx_slice_tc_offset_div2 v)
+    && (sx_offset_len_minus1 v <=? 31) && (lenN (sx_entry_point_offset_minus1 v) <=? 2048)
+    && forallb (fun x => x <? 2 ^ (sx_offset_len_minus1 v + 1)) (sx_entry_point_offset_minus1 v)
+    && (lenN (sx_slice_segment_header_extension_data v) <=? 256)
+    && forallb (fun x => x <? 256) (sx_slice_segment_header_extension_data v)
+    && forallb (fun x => x <? 256) (sx_slice_segment_data v).
+
+  (* what hevc.ParseSliceHeader counts for the short-term set: the flags of an inter-predicted set are
+     not derived (known finding), so only coded sets contribute *)
+  Definition hs_go_st_used : N :=
+    if hs_nidr then
+      if sx_short_term_ref_pic_set_sps_flag v
+      then match nth_error (sx_st_ref_pic_sets sp) (N.to_nat hs_st_idx) with
+           | Some (RpsExplicit neg pos) => countb (map snd neg) + countb (map snd pos)
+           | _ => 0
+           end
+      else match sx_slice_st_rps v with
+           | RpsExplicit neg pos => countb (map snd neg) + countb (map snd pos)
+           | _ => 0
+           end
+    else 0.
+  (* exact guard excluding that defect: the count is only consumed by ref_pic_lists_modification() *)
+  Definition hslice_rps_guard : bool :=
+    negb (hs_inter && sx_lists_modification_present_flag pp) || (hs_go_st_used =? d_num_used hs_curr_rps).
+
+  Definition expected_hslice_rps : hrps :=
+    if hs_nidr then
+      if sx_short_term_ref_pic_set_sps_flag v
+      then match nth_error (combine hs_sps_derived (sx_st_ref_pic_sets sp)) (N.to_nat hs_st_idx) with
+           | Some p => expected_hrps (fst p) (snd p)
+           | None => hrps_zero
+           end
+      else expected_hrps hs_curr_rps (sx_slice_st_rps v)
+    else hrps_zero.
+
+  Definition expected_hpwt (e : hpwt) : hpwt :=
+    let lf := pw_luma_flag e in
+    let cf := hs_cat_nz && pw_chroma_flag e in
+    let zz (c : bool) (k : Z) := if c then k else 0%Z in
+    mkHPwt lf cf (zz lf (pw_dlw e)) (zz lf (pw_lo e)) (zz cf (pw_dcw0 e)) (zz cf (pw_dcw1 e))
+           (zz cf (pw_dco0 e)) (zz cf (pw_dco1 e)).
+
+  Definition expected_hslice : hslice :=
+    let n (c : bool) (x : N) := if c then x else 0 in
+    let zz (c : bool) (k : Z) := if c then k else 0%Z in
+    let m := hs_main in
+    let cq := m && sx_pps_slice_chroma_qp_offsets_present_flag pp in
+    let aq := m && hs_act_qp in
+    let bt := hs_dbf_override && negb (sx_slice_deblocking_filter_disabled_flag v) in
+    let ne := if hs_entry then lenN (sx_entry_point_offset_minus1 v) else 0 in
+    let ex := sx_slice_segment_header_extension_present_flag pp in
+    mkHSlice (n m (sx_slice_type v)) hs_first (hs_irap && sx_no_output_of_prior_pics_flag v)
+             (sx_slice_pic_parameter_set_id v) hs_dep (n (negb hs_first) (sx_slice_segment_address v))
+             (m && sx_output_flag_present_flag pp && sx_pic_output_flag v)
+             (n (m && hs_sep_plane) (sx_colour_plane_id v))
+             (n hs_nidr (sx_slice_pic_order_cnt_lsb v))
+             (hs_nidr && sx_short_term_ref_pic_set_sps_flag v)
+             expected_hslice_rps hs_st_idx
+             (lenN hs_lt_sps_entries) (lenN hs_lt_pics_entries)
+             (map (fun e => let '(ix, msb, cyc) := e in
+                            mkHLt (fst (hs_sps_lt ix)) (snd (hs_sps_lt ix)) msb (n msb cyc)) hs_lt_sps_entries
+              ++ map (fun e => let '(poc, used, msb, cyc) := e in mkHLt poc used msb (n msb cyc)) hs_lt_pics_entries)
+             hs_tmvp hs_sao_luma hs_sao_chroma hs_override
+             (n hs_inter hs_l0) (n hs_inter hs_l1)
+             (if hs_rplm
+              then Some (sx_ref_pic_list_modification_flag_l0 v,
+                         (if sx_ref_pic_list_modification_flag_l0 v then sx_list_entry_l0 v else []),
+                         hs_is_b && sx_ref_pic_list_modification_flag_l1 v,
+                         (if hs_is_b && sx_ref_pic_list_modification_flag_l1 v then sx_list_entry_l1 v else []))
+              else None)
+             (hs_is_b && sx_mvd_l1_zero_flag v)
+             (hs_inter && sx_cabac_init_present_flag pp && sx_cabac_init_flag v)
+             (if hs_inter && hs_tmvp then hs_col_l0 else true)
+             (n hs_col_idx (sx_collocated_ref_idx v))
+             (if hs_pwt
+              then Some (sx_luma_log2_weight_denom v, zz hs_cat_nz (sx_delta_chroma_log2_weight_denom v),
+                         map expected_hpwt (sx_pwt_l0 v),
+                         (if hs_is_b then map expected_hpwt (sx_pwt_l1 v) else []))
+              else None)
+             (n hs_inter (sx_five_minus_max_num_merge_cand v))
+             (hs_inter && hs_mvres2 && sx_use_integer_mv_flag v)
+             (zz m (sx_slice_qp_delta v)) (zz cq (sx_slice_cb_qp_offset v)) (zz cq (sx_slice_cr_qp_offset v))
+             (zz aq (sx_slice_act_y_qp_offset v)) (zz aq (sx_slice_act_cb_qp_offset v))
+             (zz aq (sx_slice_act_cr_qp_offset v))
+             (m && hs_cqp_list && sx_cu_chroma_qp_offset_enabled_flag v)
+             hs_dbf_override (m && hs_dbf_disabled)
+             (zz bt (sx_slice_beta_offset_div2 v)) (zz bt (sx_slice_tc_offset_div2 v))
+             (hs_lf_across && sx_slice_loop_filter_across_slices_enabled_flag v)
+             ne (n (0 <? ne) (sx_offset_len_minus1 v))
+             (if hs_entry then sx_entry_point_offset_minus1 v else [])
+             (n ex (lenN (sx_slice_segment_header_extension_data v)))
+             (if ex then sx_slice_segment_header_extension_data v else [])
+             (nbytes_at hraw_slice hslice_size_bits).
+End HSliceSyntax.
